@@ -171,17 +171,26 @@ def judge_built(m):
     from harness import lib_c02c14 as L
 
     bad = list(L.judge_model(m))
-    if not any(k == "ort-load" for k, _ in bad):
-        try:
-            import onnxruntime as ort
+    if not any(k in ("ort-load", "runtime-aborted", "checker-aborted") for k, _ in bad):
+        from harness import lib_isolate as ISO
 
-            so = ort.SessionOptions()
-            so.log_severity_level = 4
-            so.graph_optimization_level = ort.GraphOptimizationLevel.ORT_DISABLE_ALL
-            ort.InferenceSession(m.SerializeToString(), so, providers=["CPUExecutionProvider"])
+        try:
+            ISO.call(_load_noopt, m)
+        except ISO.Aborted as e:
+            bad.append(("runtime-aborted", "ORT_DISABLE_ALL: " + str(e)))
         except Exception as e:  # noqa: BLE001
             bad.append(("ort-load", "ORT_DISABLE_ALL: " + str(e)[:300]))
     return bad
+
+
+def _load_noopt(m):
+    import onnxruntime as ort
+
+    so = ort.SessionOptions()
+    so.log_severity_level = 4
+    so.graph_optimization_level = ort.GraphOptimizationLevel.ORT_DISABLE_ALL
+    ort.InferenceSession(m.SerializeToString(), so, providers=["CPUExecutionProvider"])
+    return True
 
 
 def build_any(case):
@@ -200,7 +209,8 @@ def classify(case, bad):
                     return "optional-value-through-internal-identity-below-opset-16"
                 return f"optional-or-sequence-value:{k}"
         return "optional-or-sequence-value:invalid"
-    for k in ("full-checker", "strict-inference", "ort-load", "walker", "missing-function"):
+    for k in ("checker-aborted", "runtime-aborted", "full-checker", "strict-inference", "ort-load", "walker",
+              "missing-function"):
         if k in kinds:
             return f"ill-typed-call-returned-invalid-model:{k}"
     return "ill-typed-call-returned-invalid-model"
